@@ -197,8 +197,20 @@ impl ZkStdLibArch {
         reader.read_exact(&mut version)?;
         let version = u32::from_le_bytes(version);
         match version {
-            1 => bincode::decode_from_std_read(reader, standard())
-                .map_err(|e| io::Error::new(io::ErrorKind::InvalidData, e)),
+            1 => {
+                let arch: Self = bincode::decode_from_std_read(reader, standard())
+                    .map_err(|e| io::Error::new(io::ErrorKind::InvalidData, e))?;
+                // The descriptor is untrusted input. `ZkStdLib::configure` hands
+                // `nr_pow2range_cols` columns to `Pow2RangeChip::configure`, which
+                // panics unless that number is smaller than `NB_ARITH_COLS`.
+                if arch.nr_pow2range_cols as usize >= NB_ARITH_COLS {
+                    return Err(io::Error::new(
+                        io::ErrorKind::InvalidData,
+                        "Invalid ZKStd architecture: too many range-check columns",
+                    ));
+                }
+                Ok(arch)
+            }
             _ => Err(io::Error::new(
                 io::ErrorKind::InvalidData,
                 format!("Unsupported ZKStd version: {}", version),
